@@ -241,15 +241,16 @@ Fixpoint release_loop (g : tgraph) (cs : list Z) (acc : list Z) : result (list Z
   end.
 
 (* probabilities are tt_prob / g_den with exactly representable quotients (the harness uses dyadic
-   values), so `p <= epsilon` is `tt_prob <= 0` and `abs(sum - 1.0) > epsilon` is `sum <> g_den` *)
+   values), so `p <= epsilon` is `tt_prob <= 0` and `sum - 1.0 > epsilon` is `g_den < sum` *)
 Definition all_children_zero (g : tgraph) (t : Z) : bool :=
-  forallb (fun c => tg_prob g c <=? 0) (tg_children g t).
-Definition probs_sum_to_one (g : tgraph) (t : Z) : bool :=
-  zsum (map (tg_prob g) (tg_children g t)) =? g_den g.
+  probs_all_zero (map (tg_prob g) (tg_children g t)).
+(* the sanity test on the sum of the children's probabilities (translated: Src_TaskGraph.probs_rejected) *)
+Definition probs_refused (g : tgraph) (t : Z) : bool :=
+  probs_rejected (zsum (map (tg_prob g) (tg_children g t))) (g_den g).
 
 Definition notify_consumes_draw (g : tgraph) (t : Z) : bool :=
   tg_ok g && zmem t (tg_nodes g) && tg_complete g t && tg_conditional g t
-  && negb (all_children_zero g t) && probs_sum_to_one g t.
+  && negb (all_children_zero g t) && negb (probs_refused g t).
 
 Definition notify_completion (g : tgraph) (t finish draw : Z) : tgraph * result (list Z * list Z) :=
   if negb (tg_ok g && zmem t (tg_nodes g)) then (g, Err 4)
@@ -261,7 +262,7 @@ Definition notify_completion (g : tgraph) (t finish draw : Z) : tgraph * result 
       | (g', Ok cs) => (g', Ok ([], cs))
       | (g', Err e) => (g', Err e)
       end
-    else if negb (probs_sum_to_one g t) then (g, Err 1)
+    else if probs_refused g t then (g, Err 1)
     else match (if draw <? 0 then None else nth_error ks (Z.to_nat draw)) with
          | None => (g, Err 5)
          | Some k =>
